@@ -134,6 +134,13 @@ class TurnEnv:
         shutil.rmtree(self.base, ignore_errors=True)
         return False
 
+    def reboot(self):
+        """Replace the engine state by a fresh, not yet booted one over the same world and directories: the next turn runs
+        the real boot loader against whatever snapshots the earlier turns left behind."""
+        w = dict(self.world)
+        w["gel"] = None
+        self.state = build_state(w, dim=int(self.cfg.get("k_surface", 32) or 32), boot_loaded=False)
+
     def activate(self):
         """Re-point the process environment at this env's directories (for interleaved envs)."""
         os.environ["CLEMATIS_LOG_DIR"] = self.log_dir
